@@ -4,6 +4,7 @@ Runs the executable model (`JaxVerif/Model/*`) only; imports no Mathlib so that 
 -/
 import Lean.Data.Json
 import Driver.Codec
+import Driver.Hook
 import JaxVerif.Model.Config
 import JaxVerif.Model.Gensym
 import JaxVerif.Model.Struct
@@ -124,6 +125,10 @@ def dispatch1 (j : Json) : Except String Json := do
   | "validstruct" => do
       let st ← getStr j "s"
       return Json.bool (validStruct st.toList)
+  | "transform" => cmdTransform j
+  | "should" => cmdShould j
+  | "imports" => cmdImports j
+  | "cache" => cmdCache j
   | "ping" => return jstr "pong"
   | _ => throw s!"unknown cmd {cmd}"
 
